@@ -915,72 +915,6 @@ fn read_decode_body(with_tape: bool) {
     let (mut c, latch, t) = any_controller_at(kemp, mouse);
     let m = c.machine;
     let cfg = any_devices(&mut c);
-    // display witness: one byte at a literal offset of a literal RAM bank - the normal screen (bank 5 /
-    // 48K screen RAM), the shadow screen (bank 7) or a bank that is never display memory (bank 3 / 48K
-    // RAM at 0x8000) - so that "a byte of the display memory being fetched" can be told from any other RAM
-    let v: u8 = kani::any();
-    kani::assume(v != 0 && v != 0xFF);
-    let wsel: u8 = kani::any();
-    kani::assume(wsel < 5);
-    // (is_attr, line or attr row, column, offset in the bank)
-    let (w_attr, w_line, w_col, w_off): (bool, usize, usize, usize) = match wsel {
-        0 => (false, 0, 0, 0x0000),
-        1 => (false, 100, 17, 0x0C80 + 17), // line 100 = 0b01100100 -> 0x0800 | 0x0400 | 0x0080
-        2 => (false, 191, 31, 0x17FF),
-        3 => (true, 12, 17, 0x1800 + 12 * 32 + 17),
-        _ => (true, 23, 31, 0x1AFF),
-    };
-    let wbank_sel: u8 = kani::any();
-    kani::assume(wbank_sel < 3);
-    // Spectrum RAM bank holding the witness
-    let w_bank: u8 = match (m, wbank_sel) {
-        (ZXMachine::Sinclair48K, 0) => 0,
-        (ZXMachine::Sinclair48K, _) => 1,
-        (_, 0) => 5,
-        (_, 1) => 7,
-        (_, _) => 3,
-    };
-    // every store below has a literal bank and offset (a symbolic bank makes the RAM store symbolic)
-    match (w_bank, wsel) {
-        (0, 0) => c.memory.ram_page_data_mut(0)[0x0000] = v,
-        (0, 1) => c.memory.ram_page_data_mut(0)[0x0C80 + 17] = v,
-        (0, 2) => c.memory.ram_page_data_mut(0)[0x17FF] = v,
-        (0, 3) => c.memory.ram_page_data_mut(0)[0x1800 + 12 * 32 + 17] = v,
-        (0, 4) => c.memory.ram_page_data_mut(0)[0x1AFF] = v,
-        (1, 0) => c.memory.ram_page_data_mut(1)[0x0000] = v,
-        (1, 1) => c.memory.ram_page_data_mut(1)[0x0C80 + 17] = v,
-        (1, 2) => c.memory.ram_page_data_mut(1)[0x17FF] = v,
-        (1, 3) => c.memory.ram_page_data_mut(1)[0x1800 + 12 * 32 + 17] = v,
-        (1, 4) => c.memory.ram_page_data_mut(1)[0x1AFF] = v,
-        (3, 0) => c.memory.ram_page_data_mut(3)[0x0000] = v,
-        (3, 1) => c.memory.ram_page_data_mut(3)[0x0C80 + 17] = v,
-        (3, 2) => c.memory.ram_page_data_mut(3)[0x17FF] = v,
-        (3, 3) => c.memory.ram_page_data_mut(3)[0x1800 + 12 * 32 + 17] = v,
-        (3, 4) => c.memory.ram_page_data_mut(3)[0x1AFF] = v,
-        (5, 0) => c.memory.ram_page_data_mut(5)[0x0000] = v,
-        (5, 1) => c.memory.ram_page_data_mut(5)[0x0C80 + 17] = v,
-        (5, 2) => c.memory.ram_page_data_mut(5)[0x17FF] = v,
-        (5, 3) => c.memory.ram_page_data_mut(5)[0x1800 + 12 * 32 + 17] = v,
-        (5, 4) => c.memory.ram_page_data_mut(5)[0x1AFF] = v,
-        (7, 0) => c.memory.ram_page_data_mut(7)[0x0000] = v,
-        (7, 1) => c.memory.ram_page_data_mut(7)[0x0C80 + 17] = v,
-        (7, 2) => c.memory.ram_page_data_mut(7)[0x17FF] = v,
-        (7, 3) => c.memory.ram_page_data_mut(7)[0x1800 + 12 * 32 + 17] = v,
-        (7, 4) => c.memory.ram_page_data_mut(7)[0x1AFF] = v,
-        _ => {}
-    }
-    let _ = w_off;
-    // the bank the ULA fetches the picture from (C08 statement): bank 5, or 7 while latch bit 3 is set
-    let shown_bank: u8 = match m {
-        ZXMachine::Sinclair48K => 0,
-        ZXMachine::Sinclair128K => {
-            if latch.val & 0x08 != 0 {
-                7
-            } else {
-                5
-            }
-        }
-    };
     // tape deck: empty, or a loaded (stopped) tape with an arbitrary EAR level
     let ear: bool = kani::any();
     if with_tape {
@@ -1027,29 +961,9 @@ fn read_decode_body(with_tape: bool) {
     } else if sel.mouse_y {
         kani::assert(got == cfg.mouse.2, "c07.read.mouse_y");
     } else {
-        // floating bus
-        let (in_lo, l_lo, c_lo) = fetch_pos(m, t as isize - 4);
-        let (in_hi, l_hi, c_hi) = fetch_pos(m, te as isize + 4);
-        let same_gap = !in_lo && !in_hi && (te + 4 - t + 4) < 96 && (l_lo == l_hi || (t as isize - 4) < 14336);
-        if same_gap {
-            kani::assert(got == 0xFF, "c07.float.idle_bus_reads_ff");
-        }
-        kani::assert(got == 0xFF || got == 0 || got == v, "c07.float.only_ff_or_display_bytes");
-        if got == v {
-            // only memory the ULA is displaying can appear on the bus
-            kani::assert(w_bank == shown_bank, "c07.float.byte_comes_from_the_displayed_screen_bank");
-            // the witness must belong to a cell fetched between t-4 and te+4
-            let wl_lo = if w_attr { w_line * 8 } else { w_line };
-            let wl_hi = if w_attr { w_line * 8 + 7 } else { w_line };
-            let wcell = w_col / 2;
-            let after_lo = (l_lo < wl_hi) || (l_lo <= wl_hi && c_lo <= wcell);
-            let before_hi = (l_hi > wl_lo) || (l_hi >= wl_lo && c_hi >= wcell);
-            kani::assert((in_lo || in_hi) && after_lo && before_hi, "c07.float.byte_is_the_one_being_fetched");
-        }
-        kani::cover!(got == v && w_attr, "attribute byte seen on the floating bus");
-        kani::cover!(got == v && w_bank == 7, "shadow-screen byte seen on the floating bus");
-        kani::cover!(got == v && !w_attr && wsel == 1, "bitmap byte seen on the floating bus");
-        kani::cover!(same_gap && t > 20000, "idle bus inside the picture area (right border / retrace)");
+        // unclaimed port: the floating bus; with all-zero RAM it can only show 0xFF or 0x00 here - the
+        // fetch-window and bank rules are checked with a witness byte in c07_floating_bus_*
+        kani::assert(got == 0xFF || got == 0, "c07.float.only_ff_or_display_bytes");
     }
     kani::cover!(sel.ula && got & 0x1F != 0x1F, "key held on a selected row");
     kani::cover!(!with_tape || (sel.ula && !sel.ext && got & 0x40 != 0), "EAR high on bit 6");
@@ -1093,6 +1007,160 @@ fn c07_read_comes_from_one_device() {
 #[kani::stub(crate::zx::video::screen::ZXScreen::process_clocks, noop_screen_clocks)]
 fn c07_read_with_tape_loaded() {
     read_decode_body(true);
+}
+
+
+/// floating-bus check with a witness byte in a literal bank class: 0 = the normal screen, 1 = the shadow
+/// screen (128K bank 7), 2 = RAM that is never display memory
+fn floating_bus_body(bank_class: u8) {
+    let (mut c, latch, t) = any_controller_at(false, false);
+    let m = c.machine;
+    if bank_class == 1 {
+        kani::assume(m == ZXMachine::Sinclair128K);
+    }
+    let v: u8 = kani::any();
+    kani::assume(v != 0 && v != 0xFF);
+    let wsel: u8 = kani::any();
+    kani::assume(wsel < 5);
+    // (is_attr, line or attr row, column)
+    let (w_attr, w_line, w_col): (bool, usize, usize) = match wsel {
+        0 => (false, 0, 0),
+        1 => (false, 100, 17), // offset 0x0C80 + 17: line 100 = 0b01100100 -> 0x0800 | 0x0400 | 0x0080
+        2 => (false, 191, 31),
+        3 => (true, 12, 17),
+        _ => (true, 23, 31),
+    };
+    let w_bank: u8 = match (m, bank_class) {
+        (ZXMachine::Sinclair48K, 0) => 0,
+        (ZXMachine::Sinclair48K, _) => 1,
+        (_, 0) => 5,
+        (_, 1) => 7,
+        (_, _) => 3,
+    };
+    // literal bank and offset in every store
+    match (w_bank, wsel) {
+        (0, 0) => c.memory.ram_page_data_mut(0)[0x0000] = v,
+        (0, 1) => c.memory.ram_page_data_mut(0)[0x0C80 + 17] = v,
+        (0, 2) => c.memory.ram_page_data_mut(0)[0x17FF] = v,
+        (0, 3) => c.memory.ram_page_data_mut(0)[0x1800 + 12 * 32 + 17] = v,
+        (0, 4) => c.memory.ram_page_data_mut(0)[0x1AFF] = v,
+        (1, 0) => c.memory.ram_page_data_mut(1)[0x0000] = v,
+        (1, 1) => c.memory.ram_page_data_mut(1)[0x0C80 + 17] = v,
+        (1, 2) => c.memory.ram_page_data_mut(1)[0x17FF] = v,
+        (1, 3) => c.memory.ram_page_data_mut(1)[0x1800 + 12 * 32 + 17] = v,
+        (1, 4) => c.memory.ram_page_data_mut(1)[0x1AFF] = v,
+        (3, 0) => c.memory.ram_page_data_mut(3)[0x0000] = v,
+        (3, 1) => c.memory.ram_page_data_mut(3)[0x0C80 + 17] = v,
+        (3, 2) => c.memory.ram_page_data_mut(3)[0x17FF] = v,
+        (3, 3) => c.memory.ram_page_data_mut(3)[0x1800 + 12 * 32 + 17] = v,
+        (3, 4) => c.memory.ram_page_data_mut(3)[0x1AFF] = v,
+        (5, 0) => c.memory.ram_page_data_mut(5)[0x0000] = v,
+        (5, 1) => c.memory.ram_page_data_mut(5)[0x0C80 + 17] = v,
+        (5, 2) => c.memory.ram_page_data_mut(5)[0x17FF] = v,
+        (5, 3) => c.memory.ram_page_data_mut(5)[0x1800 + 12 * 32 + 17] = v,
+        (5, 4) => c.memory.ram_page_data_mut(5)[0x1AFF] = v,
+        (7, 0) => c.memory.ram_page_data_mut(7)[0x0000] = v,
+        (7, 1) => c.memory.ram_page_data_mut(7)[0x0C80 + 17] = v,
+        (7, 2) => c.memory.ram_page_data_mut(7)[0x17FF] = v,
+        (7, 3) => c.memory.ram_page_data_mut(7)[0x1800 + 12 * 32 + 17] = v,
+        (7, 4) => c.memory.ram_page_data_mut(7)[0x1AFF] = v,
+        _ => {}
+    }
+    let shown_bank: u8 = match m {
+        ZXMachine::Sinclair48K => 0,
+        ZXMachine::Sinclair128K => {
+            if latch.val & 0x08 != 0 {
+                7
+            } else {
+                5
+            }
+        }
+    };
+    let port: u16 = kani::any();
+    // a port no device claims: odd, not the paging latch ... reads of the latch port float too, but keep to
+    // the unambiguous ones: A0 = 1 and not an AY address (no AY in this build, excluded for symmetry)
+    let sel = spec_select(m, port, false, false, None);
+    kani::assume(!sel.ula && !sel.ay_sel && !sel.ay_data);
+    let got = c.read_io(port);
+    let te = t + elapsed(&c, t);
+    {
+        // floating bus
+        let (in_lo, l_lo, c_lo) = fetch_pos(m, t as isize - 4);
+        let (in_hi, l_hi, c_hi) = fetch_pos(m, te as isize + 4);
+        let same_gap = !in_lo && !in_hi && (te + 4 - t + 4) < 96 && (l_lo == l_hi || (t as isize - 4) < 14336);
+        if same_gap {
+            kani::assert(got == 0xFF, "c07.float.idle_bus_reads_ff");
+        }
+        kani::assert(got == 0xFF || got == 0 || got == v, "c07.float.only_ff_or_display_bytes");
+        if got == v {
+            // only memory the ULA is displaying can appear on the bus
+            kani::assert(w_bank == shown_bank, "c07.float.byte_comes_from_the_displayed_screen_bank");
+            // the witness must belong to a cell fetched between t-4 and te+4
+            let wl_lo = if w_attr { w_line * 8 } else { w_line };
+            let wl_hi = if w_attr { w_line * 8 + 7 } else { w_line };
+            let wcell = w_col / 2;
+            let after_lo = (l_lo < wl_hi) || (l_lo <= wl_hi && c_lo <= wcell);
+            let before_hi = (l_hi > wl_lo) || (l_hi >= wl_lo && c_hi >= wcell);
+            kani::assert((in_lo || in_hi) && after_lo && before_hi, "c07.float.byte_is_the_one_being_fetched");
+        }
+        kani::cover!(bank_class == 2 || (got == v && w_attr), "attribute byte seen on the floating bus");
+        kani::cover!(bank_class != 1 || (got == v && w_bank == 7), "shadow-screen byte seen on the floating bus");
+        kani::cover!(bank_class == 2 || (got == v && !w_attr && wsel == 1), "bitmap byte seen on the floating bus");
+        kani::cover!(same_gap && t > 20000, "idle bus inside the picture area (right border / retrace)");
+    }
+    }
+    kani::cover!(got == 0xFF && t > 20000, "0xFF read");
+}
+
+// @harness
+// @prop C07
+// @tier quick
+// @timeout 1200
+// @fn ZXController::read_io (unclaimed port); ZXController::floating_bus_value; bitmap_line_addr; ZXMemory::ram_page_data
+// @sym machine, latch (two symbolic writes: any bank at 0xC000, either screen displayed), frame time, unclaimed odd port, one witness byte (cell from a class of 5 bitmap/attribute positions) in the normal screen bank (bank 5 / 48K screen RAM)
+// @assert a read from a port no device claims returns 0xFF when the whole cycle lies outside the picture fetch windows (+-4 T); otherwise 0xFF or a byte of the display file/attributes of the cells being fetched during the cycle (+-4 T), taken from the bank the ULA is displaying (bank 7 while latch bit 3 is set) and from no other RAM bank, whatever is paged at 0xC000
+// @bound one port read; witness positions {(0,0), (100,17), (191,31)} bitmap, {(12,17), (23,31)} attributes
+// @stub ZXScreen::process_clocks -> no-op
+// @replay solver-only
+#[kani::proof]
+#[kani::unwind(10)]
+#[kani::stub(crate::zx::video::screen::ZXScreen::process_clocks, noop_screen_clocks)]
+fn c07_floating_bus_normal_screen() {
+    floating_bus_body(0);
+}
+
+// @harness
+// @prop C07
+// @tier quick
+// @timeout 1200
+// @fn ZXController::read_io (unclaimed port); ZXController::floating_bus_value; bitmap_line_addr; ZXMemory::ram_page_data
+// @sym machine, latch (two symbolic writes: any bank at 0xC000, either screen displayed), frame time, unclaimed odd port, one witness byte (cell from a class of 5 bitmap/attribute positions) in the 128K shadow screen bank 7
+// @assert a read from a port no device claims returns 0xFF when the whole cycle lies outside the picture fetch windows (+-4 T); otherwise 0xFF or a byte of the display file/attributes of the cells being fetched during the cycle (+-4 T), taken from the bank the ULA is displaying (bank 7 while latch bit 3 is set) and from no other RAM bank, whatever is paged at 0xC000
+// @bound one port read; witness positions {(0,0), (100,17), (191,31)} bitmap, {(12,17), (23,31)} attributes
+// @stub ZXScreen::process_clocks -> no-op
+// @replay solver-only
+#[kani::proof]
+#[kani::unwind(10)]
+#[kani::stub(crate::zx::video::screen::ZXScreen::process_clocks, noop_screen_clocks)]
+fn c07_floating_bus_shadow_screen() {
+    floating_bus_body(1);
+}
+
+// @harness
+// @prop C07
+// @tier quick
+// @timeout 1200
+// @fn ZXController::read_io (unclaimed port); ZXController::floating_bus_value; bitmap_line_addr; ZXMemory::ram_page_data
+// @sym machine, latch (two symbolic writes: any bank at 0xC000, either screen displayed), frame time, unclaimed odd port, one witness byte (cell from a class of 5 bitmap/attribute positions) in a RAM bank that is never display memory (128K bank 3 / 48K RAM at 0x8000)
+// @assert a read from a port no device claims returns 0xFF when the whole cycle lies outside the picture fetch windows (+-4 T); otherwise 0xFF or a byte of the display file/attributes of the cells being fetched during the cycle (+-4 T), taken from the bank the ULA is displaying (bank 7 while latch bit 3 is set) and from no other RAM bank, whatever is paged at 0xC000
+// @bound one port read; witness positions {(0,0), (100,17), (191,31)} bitmap, {(12,17), (23,31)} attributes
+// @stub ZXScreen::process_clocks -> no-op
+// @replay solver-only
+#[kani::proof]
+#[kani::unwind(10)]
+#[kani::stub(crate::zx::video::screen::ZXScreen::process_clocks, noop_screen_clocks)]
+fn c07_floating_bus_other_ram() {
+    floating_bus_body(2);
 }
 
 // =============================================================================================
